@@ -96,7 +96,9 @@ CLAIMED['C08'] = {
             'counter increment and the within-budget edge (the other edge fails); no exported function reaches a repair '
             'driver without is_admissible_under having answered true (least fixed point over the call graph, including '
             'the InvalidTopology variant gate); every Ok of the public repair entry points lies behind the success edge of '
-            'the post-condition verifier (greatest fixed point); the Delaunay verifiers drop no checker result. '
+            'the post-condition verifier (greatest fixed point); the Delaunay verifiers drop no checker result; the flip '
+            'drivers cannot write the vertex maps and the heuristic rebuild re-inserts every stored vertex and fails on a '
+            'skipped one; the work-list seeding shared by repair and verifier covers every simplex class per cell. '
             'Decides budget / admissibility / post-condition gating, not convergence or uniqueness.',
     'note': 'Trusted: rustc MIR; the four flip-predicate post-condition checkers and validate_cell_delaunay are leaves '
             '(their numerical verdict is C04, not applicable).',
@@ -166,8 +168,10 @@ CLAIMED['C14'] = {
     'text': 'Static: over the call graph rooted at the constructors and exported &mut operations: no unseeded random '
             'source, no thread / process identity, no thread-local other than the recursion-depth counter, no iteration '
             'over a RandomState-hashed collection; every seed_from_u64 seed has no nondeterministic source in its backward '
-            'slice; every clock value flows only into elapsed-time logging. Decides the absence of nondeterminism sources '
-            '(run-to-run / cross-process / cross-thread), not order-independence of the result.',
+            'slice; every clock value flows only into elapsed-time logging; the comparators of the three value-based ordering '
+            'strategies compare the input position only after the full coordinate comparison. Decides the absence of '
+            'nondeterminism sources (run-to-run / cross-process / cross-thread) and that necessary condition of '
+            'order-independence, not order-independence of the result as a whole.',
     'note': 'Trusted: rustc MIR callee resolution; hasher identification by type string (FxBuildHasher vs default); '
             'env-var reads are configuration, not nondeterminism. The cell-UUID tie-break in repair_local_facet_issues is an '
             'open item recorded in DESIGN.md.',
